@@ -10,6 +10,7 @@ import (
 	"fmt"
 	"os"
 	"path/filepath"
+	"sort"
 	"strings"
 )
 
@@ -156,6 +157,29 @@ func vDir(name string) {
 		panic(err)
 	}
 }
+
+// vCorpusFile returns the i-th .jst file under /repo/testdata (sorted by path).
+func vCorpusFile(i int) (string, []byte) {
+	var files []string
+	filepath.Walk("/repo/testdata", func(p string, info os.FileInfo, err error) error {
+		if err == nil && !info.IsDir() && strings.HasSuffix(p, ".jst") {
+			files = append(files, p)
+		}
+		return nil
+	})
+	sort.Strings(files)
+	if i < 0 || i >= len(files) {
+		return "", nil
+	}
+	b, err := os.ReadFile(files[i])
+	if err != nil {
+		panic(err)
+	}
+	return files[i], b
+}
+
+// vFSLog: (engine only) the paths handed to the file-system stubs so far.
+func vFSLog() []string { return nil }
 
 func vCleanup() {
 	if vNative.root != "" {
